@@ -427,6 +427,12 @@ func (x *Exec) writeLoc(st *State, loc *Loc, v Value) {
 				}
 				x.writeLoc(st, &Loc{Key: loc.Key + "." + f.Name(), T: f.Type(), KeyT: f.Type()}, fv)
 			}
+			// observer pseudo-fields (".$Year" ...) of the overwritten value are forgotten
+			for k := range st.store {
+				if strings.HasPrefix(k, loc.Key+".$") || strings.Contains(k, ".$") && strings.HasPrefix(k, loc.Key+".") {
+					x.havocKey(st, k)
+				}
+			}
 			return
 		case *types.Pointer:
 			if len(loc.Idx) == 0 {
